@@ -499,14 +499,14 @@ func (f *httpFetcher) fetch(ctx context.Context, rs []region, retry bool) (multi
 
 	// Request to the registry
 	f.urlMu.Lock()
-	url := f.url
+	url, header := f.url, f.header // the headers belong to this URL; take both at once
 	f.urlMu.Unlock()
 	req, err := http.NewRequestWithContext(ctx, "GET", url, nil)
 	if err != nil {
 		return nil, err
 	}
 	req.Header = http.Header{}
-	maps.Copy(req.Header, f.header)
+	maps.Copy(req.Header, header)
 	var ranges string
 	for _, reg := range requests {
 		ranges += fmt.Sprintf("%d-%d,", reg.b, reg.e)
@@ -572,14 +572,14 @@ func (f *httpFetcher) check() error {
 		defer cancel()
 	}
 	f.urlMu.Lock()
-	url := f.url
+	url, header := f.url, f.header // the headers belong to this URL; take both at once
 	f.urlMu.Unlock()
 	req, err := http.NewRequestWithContext(ctx, "GET", url, nil)
 	if err != nil {
 		return fmt.Errorf("check failed: failed to make request: %w", err)
 	}
 	req.Header = http.Header{}
-	maps.Copy(req.Header, f.header)
+	maps.Copy(req.Header, header)
 	req.Close = false
 	req.Header.Set("Range", "bytes=0-1")
 	res, err := f.tr.RoundTrip(req)
